@@ -711,11 +711,11 @@ def broker_behaviours(v, spec, depth, mode="cover", maxqos=2):
     return behs
 
 
-def broker_replay(v, pid, behs, label, auth="mockSuccess", maxqos=2, own_tags=None):
+def broker_replay(v, pid, behs, label, auth="mockSuccess", maxqos=2, own_tags=None, frag=0):
     own_tags = own_tags or {pid}
     if len(behs) == 0:
         raise Infra("%s: the specification produced no behaviours to replay" % label)
-    res = core.merge(core.run_sharded(["brokerreplay", "-auth", auth, "-maxqos", str(maxqos)], behs, timeout=2400))
+    res = core.merge(core.run_sharded(["brokerreplay", "-auth", auth, "-maxqos", str(maxqos), "-frag", str(frag)], behs, timeout=2400))
     mine = [m for m in res.get("mismatches", []) if m.get("tag") in own_tags]
     foreign = [m for m in res.get("mismatches", []) if m.get("tag") not in own_tags]
     v.cov["parts"][label] = {"behaviours": res.get("evaluations", 0), "steps": res.get("steps", 0),
@@ -744,15 +744,20 @@ BROKER_ASSUME = ["sequential regime: one stimulus at a time, broker reaction obs
                  "the retain flag of a live forward to an in-process (Server.Subscribe) callback is not specified (the library hands the publisher's message object to the callback)"]
 
 
-def broker_check(pid, tier, plan, own, rule, extra=None):
+def broker_check(pid, tier, plan, own, rule, extra=None, frag_item=None):
     v = Verdict(pid, tier)
     thorough = tier == "thorough"
-    for item in plan:
+    for idx, item in enumerate(plan):
         spec, mode, dq, dt, auth = item[:5]
         maxqos = item[5] if len(item) > 5 else 2
         d = dt if thorough else dq
         behs = broker_behaviours(v, spec, d, mode, maxqos=maxqos)
         broker_replay(v, pid, behs, "%s(%s,%d%s)" % (spec, mode, d, "" if maxqos == 2 else ",maxqos=%d" % maxqos), auth=auth, maxqos=maxqos, own_tags=own)
+        if idx == frag_item:
+            # the same behaviours with every client write cut into segments: after the first byte, before the last
+            # byte (thorough: also in the middle, and byte by byte)
+            for fm in ([1, 3] if not thorough else [1, 2, 3, 4]):
+                broker_replay(v, pid, behs, "%s(%s,%d) segmented writes, mode %d" % (spec, mode, d, fm), auth=auth, maxqos=maxqos, own_tags=own, frag=fm)
     if extra:
         extra(v)
     v.cov["rule"] = rule + " distinct_nontrivial = behaviours replayed (each is a distinct operation sequence; cover mode: the maximal witnesses of one-witness-per-transition)."
@@ -764,7 +769,7 @@ def broker_check(pid, tier, plan, own, rule, extra=None):
 @check("C01")
 def c01(tier):
     return broker_check("C01", tier, [("RoutingSpec", "cover", 3, 4, "mockSuccess"), ("RoutingSpec", "paths", 2, 3, "mockSuccess"), ("RoutingSpec", "paths", 2, 2, "mockSuccess", 1),
-                                      ("SameSpec", "cover", 6, 7, "mockSuccess"), ("SameLastSpec", "paths", 5, 6, "mockSuccess")], {"C01"},
+                                      ("SameSpec", "cover", 6, 7, "mockSuccess"), ("SameLastSpec", "paths", 5, 6, "mockSuccess")], {"C01"}, frag_item=1, rule=
                         "Broker specification, configuration routing: 2 network clients + 1 in-process subscriber, filters {a/b,a/+,a/#,#,+/b}, names "
                         "{a/b,a,a/b/c,c}, publish QoS x granted QoS in {0,1,2}^2, payloads tiny/empty/big; transition cover and all paths; after every "
                         "step the PUBLISH packets on every connection (topic, payload bytes, QoS, retain flag) are compared with the specification's bag. "
@@ -792,14 +797,14 @@ def c02(tier):
                         "configuration qosrx: all operation sequences over QoS 2 PUBLISH (2 ids, DUP repeats with other content), PUBREL (3 ids incl. "
                         "unknown), QoS 1 PUBLISH and 6 KB unrelated traffic that wraps the ring; acks on the publisher, hand-over to a witness subscriber. "
                         "Plus TLC -simulate behaviours with up to 40 exchanges open at once (the incoming queue grows while its head has moved).",
-                        extra=lambda v: q2many(v, tier))
+                        extra=lambda v: q2many(v, tier), frag_item=0)
 
 
 @check("C07")
 def c07(tier):
     return broker_check("C07", tier, [("SubsSpec", "cover", 5, 6, "mockSuccess"), ("SubsSpec", "paths", 2, 3, "mockSuccess"), ("SubsSpec", "cover", 4, 5, "mockSuccess", 1)], {"C07", "C01", "C08"},
                         "configuration subs: SUBSCRIBE requests with 1..9 filters incl. invalid filters and QoS 3, two packet ids, UNSUBSCRIBE lists of 1..9, "
-                        "probe publishes from a second client; SUBACK/UNSUBACK bytes and subsequent deliveries compared.")
+                        "probe publishes from a second client; SUBACK/UNSUBACK bytes and subsequent deliveries compared.", frag_item=1)
 
 
 @check("C08")
@@ -810,7 +815,7 @@ def c08(tier):
                         "packets after SUBACK and live forwards compared incl. retain flag, QoS, payload bytes. Concurrent part: recorded runs in which one client "
                         "rewrites a retained topic with self-describing payloads (generation number + filler) while another subscribes in a loop, validated by TLC against "
                         "OutStreamTrace: every retained packet is one complete generation, not older than what the broker had handled when the SUBSCRIBE was sent.",
-                        extra=lambda v: fanin_validate(v, "C08", tier))
+                        extra=lambda v: fanin_validate(v, "C08", tier), frag_item=1)
 
 
 @check("C09")
@@ -824,7 +829,7 @@ def c09(tier):
 def c10(tier):
     return broker_check("C10", tier, [("SessSpec", "cover", 6, 7, "mockSuccess"), ("Sess1Spec", "paths", 6, 7, "mockSuccess")], {"C10", "C01", "C07"},
                         "configuration session: connect (CleanSession 0/1) / subscribe / unsubscribe / DISCONNECT / cut over two client ids and two slots, probe "
-                        "publishes; SessionPresent and deliveries to restored subscriptions compared.")
+                        "publishes; SessionPresent and deliveries to restored subscriptions compared.", frag_item=1)
 
 
 @check("C11")
@@ -833,7 +838,7 @@ def c11(tier):
                         "configuration admit: 14 kinds of refused first packets (unsupported level, name mismatch, client id too long / unprintable / empty with "
                         "CleanSession 0, reserved flag, will flags, other packet types, truncated CONNECT, garbage, bad fixed-header flags) with follow-up "
                         "SUBSCRIBE '#' and retained PUBLISH on the refused connection, accepting and rejecting authenticators; CONNACK bytes, closure, witness "
-                        "deliveries and a late subscriber's retained view compared.")
+                        "deliveries and a late subscriber's retained view compared.", frag_item=1)
 
 
 # ------------------------------------------------------------------------------------------ C19
